@@ -164,8 +164,12 @@ def _closures(text):
             while j < len(toks) and toks[j].text != '|':
                 j += 1
             # body
-            b = j + 1
-            while b < len(toks) and toks[b].text != '{' and toks[b].text not in (';', ')'):
+            b, bd = j + 1, 0
+            while b < len(toks) and (bd > 0 or (toks[b].text != '{' and toks[b].text not in (';', ')'))):
+                if toks[b].text == '[':
+                    bd += 1
+                elif toks[b].text == ']':
+                    bd -= 1
                 b += 1
             if b < len(toks) and toks[b].text == '{':
                 res.append((k, j, b, toks))
@@ -398,12 +402,15 @@ def weave_fn(sc, fb, reach=False):
     if fb.lift is not None:
         it, raw = lift_block(fb, it)
     rules = fb.opts.get('rules')
-    rules = rules.split(',') if rules else ['R0', 'R1', 'R7', 'R8', 'R2', 'R3', 'R9', 'R10', 'R11', 'R12', 'R13', 'R15', 'R16', 'R17', 'R18', 'R20', 'R21', 'R22', 'R23', 'R24', 'R25', 'R26', 'R27', 'R28', 'R29', 'R21b', 'R30', 'R31', 'R32', 'R22b', 'R16b']
+    rules = rules.split(',') if rules else ['R0', 'R1', 'R7', 'R8', 'R2', 'R3', 'R9', 'R10', 'R11', 'R12', 'R13', 'R15', 'R16', 'R17', 'R18', 'R20', 'R21', 'R22', 'R23', 'R24', 'R25', 'R26', 'R27', 'R28', 'R29', 'R21b', 'R30', 'R31', 'R32', 'R22b', 'R16b', 'R0b', 'R33', 'R34', 'R35']
     counts = {}
     try:
         # phase A: line-preserving token rewrites
         import desugar as _dz
         _dz.set_opts(fb.opts)
+        for dn in [x for x in fb.opts.get('dead', '').split('+') if x]:
+            if not re.search(r'(?m)^\s*(pub(\(crate\))? )?const ' + re.escape(dn) + r': bool = false;', sc.get(fb.rel)[0]):
+                raise WeaveError(f'{fb.path}: dead={dn}: the source does not declare `const {dn}: bool = false;`')
         text, c = desugar(raw, [r for r in rules if r in ('R0', 'R1', 'R7', 'R8', 'R28')])
         counts.update(c)
         if text.count('\n') != raw.count('\n'):
@@ -495,7 +502,7 @@ def weave_fn(sc, fb, reach=False):
             text, origin = apply_inserts(text, origin, inserts)
             # phase C: loop desugarings (line preserving)
             before = text.count('\n')
-            text, c = desugar(text, [r for r in rules if r in ('R2', 'R3', 'R9', 'R10', 'R11', 'R12', 'R13', 'R15', 'R16', 'R17', 'R18', 'R20', 'R21', 'R22', 'R23', 'R24', 'R25', 'R26', 'R27', 'R29', 'R21b', 'R30', 'R31', 'R32', 'R22b', 'R16b')])
+            text, c = desugar(text, [r for r in rules if r in ('R2', 'R3', 'R9', 'R10', 'R11', 'R12', 'R13', 'R15', 'R16', 'R17', 'R18', 'R20', 'R21', 'R22', 'R23', 'R24', 'R25', 'R26', 'R27', 'R29', 'R21b', 'R30', 'R31', 'R32', 'R22b', 'R16b', 'R0b', 'R33', 'R34', 'R35')])
             counts.update(c)
             if text.count('\n') != before:
                 raise WeaveError(f'internal: desugaring changed the line count of {fb.path}')
@@ -554,9 +561,12 @@ def weave_fn(sc, fb, reach=False):
             k, j, b, ctoks = cls[n - 1]
             cret, crty = copts.get('ret'), copts.get('ty')
             hdr = ''
+            if cret and ctoks[j + 1].text == '-':
+                # the closure declares `-> T`: name the result `-> (ret: T)`, clauses go before the body
+                inserts.append((ctoks[j + 3].start, f'({cret}: '))
+                inserts.append((ctoks[b].start, ')\n' + ''.join(l + '\n' for l, _ in clause_lines)))
+                continue
             if cret:
-                if ctoks[j + 1].text == '-':
-                    raise WeaveError(f'{fb.path}: closure #{n} already has a return type')
                 hdr = f' -> ({cret}: {crty})'
             inserts.append((ctoks[j].end, hdr + '\n' + ''.join(l + '\n' for l, _ in clause_lines)))
     text, origin = apply_inserts(text, origin, inserts)
